@@ -10,7 +10,17 @@ Every labelling is replayed by the Coq monitor (optimal cost, admissible);
 partitions are compared directly and a difference is accepted only when the
 monitor certifies both as optima (tie).  'drop' outputs are compared with the
 model's drop_links exactly.
+
+Tie (route T, explicit-stack solver): tools/py2coq_iterative.py re-translates the CURRENT source of
+nonrecursive_link (subnetlinker.py) into coq/Gen/iterative.v before the proofs are re-checked;
+Proofs/IterativeGen.v proves that the generated def (while loop on explicit fuel) computes what the
+stack machine of Model/Iterative.v computes with both switches off, hence the recursive solver's
+answer and an optimum (C03_generated_*).  A translation failure or a failing re-proof is reported
+through chk.proof_broken and the correspondence runs continue.  In addition the generated def is
+executed next to the real nonrecursive_link (order of the returned sources and destination per
+source, tie-breaking included) and next to the machine model on perfect-square-cost graphs.
 """
+import os, sys, math, hashlib
 import numpy as np, pandas as pd, json
 from fractions import Fraction
 import common, linkgen
@@ -22,6 +32,120 @@ FUNC = c02.FUNC
 FUNC_DROP = "fun c => match c with (m, mem, ms, fr, out) => check_run_drop m mem ms fr out end"
 CODES = dict(c02.CODES)
 CODES[9] = "'drop' linked or failed to link differently from: link exactly the uncontested one-source/one-destination subnets"
+
+
+# ---- route T: the generated nonrecursive_link --------------------------------------------------
+TRANSLATOR = os.path.join(common.VERIF, 'tools', 'py2coq_iterative.py')
+GEN = os.path.join(common.COQ, 'Gen', 'iterative.v')
+STATE = dict(gen_ok=False)
+GENI_IMPORTS = "From TP Require Import Model.Assign Model.IterGenCheck."
+GENI_FUNC = "check_gen_iter"
+GENI_CODES = {0: 'ok', 40: 'the generated nonrecursive_link raises / runs out of fuel where the real function returned (or raises another exception)',
+              41: 'the generated nonrecursive_link (translated from the current source) returns another source order or another destination '
+                  'for some source than the real function (translator or vocabulary unfaithful)',
+              42: 'the generated nonrecursive_link differs from the stack-machine model on this input (contradicts C03_generated_nonrecursive_is_machine)',
+              43: 'the generated nonrecursive_link found no assignment (best_back = None)',
+              44: 'the real nonrecursive_link raised SubnetOversizeException, the generated def did not',
+              45: 'the generated nonrecursive_link fell off the end without a return value'}
+
+
+def regenerate(chk):
+    """re-run the translator on the current source; returns (ok, text-or-log)"""
+    rc, out = common.sh([sys.executable, TRANSLATOR, '--repo', common.REPO, '--stdout'], timeout=60)
+    if rc != 0:
+        return False, out
+    with common.Lock(os.path.join(common.COQ, '.build.lock')):
+        old = open(GEN).read() if os.path.exists(GEN) else None
+        if old != out:
+            os.makedirs(os.path.dirname(GEN), exist_ok=True)
+            tmp = GEN + '.tmp%d' % os.getpid()
+            with open(tmp, 'w') as f:
+                f.write(out)
+            os.replace(tmp, GEN)
+            chk.tally('Gen/iterative.v rewritten (source differs from last run)')
+        else:
+            chk.tally('Gen/iterative.v unchanged')
+    return True, out
+
+
+def build(chk):
+    """translator -> cone of Properties/C03.v -> executable comparison file.  STATE['gen_ok'] tells the
+    correspondence run whether the generated def can be executed."""
+    STATE['gen_ok'] = False
+    ok, text = regenerate(chk)
+    if not ok:
+        chk.proof_broken('translation tools/py2coq_iterative.py (nonrecursive_link left the translatable subset)', text)
+        chk.build = dict(obligations=0, discharged=0, assumptions=[], files=[], theorems=[])
+        c02.ensure_vo(chk, ['Model/LinkCheck.vo', 'Model/Strategies.vo'], None)
+        return False
+    for attempt in range(3):
+        b = chk.coq()
+        if open(GEN).read() == text:
+            break
+        # another run (different TRACKPY_REPO) rewrote the generated file in between: redo
+        chk.violations = [v for v in chk.violations if not v[0].startswith('proof:')]
+        regenerate(chk)
+    chk.notes.append('Gen/iterative.v sha1 %s generated from %s' % (hashlib.sha1(text.encode()).hexdigest()[:12], common.REPO))
+    if not b['ok']:
+        c02.ensure_vo(chk, ['Model/LinkCheck.vo', 'Model/Strategies.vo'], None)
+    STATE['gen_ok'] = c02.ensure_vo(chk, ['Model/IterGenCheck.vo'], 'Gen/iterative.v / Model/IterGenCheck.v (generated nonrecursive_link does not build)') \
+        and open(GEN).read() == text
+    return bool(b['ok'])
+
+
+def run_nrl(g):
+    """the real nonrecursive_link on the sources in a FIXED order; returns (source position, destination index or None)
+    in the order of the returned source_list, or None when it raised SubnetOversizeException"""
+    from trackpy.linking import subnetlinker as sl
+    from trackpy.linking.utils import Point, SubnetOversizeException
+    Point.reset_counter()
+    R = math.sqrt(g['R2'])
+    dps = [Point(1, (float(j),)) for j in range(g['nd'])]
+    sps = []
+    for i, cs in enumerate(g['srcs']):
+        p = Point(0, (float(i),))
+        p.forward_cands = [(dps[d], math.sqrt(c)) for d, c in cs] + [(None, R)]
+        sps.append(p)
+    try:
+        spl, back = sl.nonrecursive_link(list(sps), g['nd'], R, max_size=g['max_size'])
+    except SubnetOversizeException:
+        return None
+    pos = {id(p): k for k, p in enumerate(sps)}
+    dpos = {id(p): k for k, p in enumerate(dps)}
+    return [[pos[id(s)], None if d is None else dpos[id(d)]] for s, d in zip(spl, back)]
+
+
+def gen_iter_term(g, impl):
+    srcs = common.clist([common.clist(["(Some %s, %s)" % (cnat(d), common.cZ(c)) for d, c in cs] + ["(None, %s)" % common.cZ(g['R2'])]) for cs in g['srcs']])
+    if impl is None:
+        it = 'None'
+    else:
+        it = '(Some %s)' % common.clist(["(%s, %s)" % (cnat(s), 'None' if d is None else '(Some %s)' % cnat(d)) for s, d in impl])
+    return "(%s, %s, %s)" % (srcs, common.cZ(g['max_size']), it)
+
+
+def gen_iter_harness(chk):
+    """executes Gen/iterative.v (when it builds) next to the real nonrecursive_link and next to the machine model"""
+    if not STATE['gen_ok']:
+        chk.tally('generated nonrecursive_link not executable (translation / build failed): generated-code harness skipped')
+        return
+    n = 200 if chk.tier == 'quick' else 5000
+    terms, cases = [], []
+    for k in range(n):
+        g = c02.gen_sq_graph(chk.rng, chk.tier)
+        g['max_size'] = chk.rng.choice([30, 30, 30, len(g['srcs']), max(0, len(g['srcs']) - 1)])
+        try:
+            impl = run_nrl(g)
+        except Exception as e:
+            chk.violation('nonrecursive_link: exception', 'nonrecursive_link raised %r' % e, dict(kind='geniter', graph=g)); continue
+        terms.append(gen_iter_term(g, impl)); cases.append((g, impl))
+        chk.tally('generated nonrecursive_link vs real nonrecursive_link' + (' (oversize raised)' if impl is None else ''))
+    res = common.coq_eval_lists(chk.work, GENI_IMPORTS, GENI_FUNC, terms, tag='geniter')
+    for (g, impl), r in zip(cases, res):
+        chk.count(('geniter', g), len(g['srcs']) >= 3)
+        if r != 0:
+            chk.violation('generated nonrecursive_link: %s' % GENI_CODES.get(r, r), 'nonrecursive_link / Gen.iterative.py_nonrecursive_link: %s' % GENI_CODES.get(r, r),
+                          dict(kind='geniter', code=r, graph=g, impl_choice=impl))
 
 
 def run_legacy(frames, sr, memory, neighbor, strategy):
@@ -82,7 +206,7 @@ def run(chk):
 
 def _run(chk):
     common.quiet_trackpy()
-    chk.coq()
+    build(chk)
     rng = chk.rng
     n = 60 if chk.tier == 'quick' else 1200
     terms, metas, dterms, dmetas = [], [], [], []
@@ -113,6 +237,9 @@ def _run(chk):
                 continue
             c['frames'] = frames
         runs = {}
+        linkgen.SPELL = c.get('sr_spell', rng.choice(linkgen.SPELLINGS))
+        c['sr_spell'] = linkgen.SPELL
+        chk.tally('search_range spelled as %s' % (linkgen.SPELL or 'float'))
         capb = c02.numba_cap_binding(dict(c, strategy='numba'))
         for s in ['recursive', 'nonrecursive', 'numba', 'hybrid', 'auto']:
             if capb and s in ('numba', 'hybrid'):
@@ -130,6 +257,7 @@ def _run(chk):
             runs['pre-divided coordinates, range 1'] = linkgen.run_link_iter(pre, Fraction(1), memory=mem, link_strategy='recursive')
         drops = {'link_iter/drop': linkgen.run_link_iter(frames, sr, memory=mem, link_strategy='drop'),
                  'legacy/KDTree/drop': run_legacy(frames, sr, mem, 'KDTree', 'drop')}
+        linkgen.SPELL = None
         chk.count(('movie', c02.jsonable(c, None)), sum(len(f) for f in frames) >= 6)
         ref = None
         for name, out in runs.items():
@@ -164,11 +292,17 @@ def _run(chk):
                           dict(kind='drop', run=name, code=r, case=c02.jsonable(c, out)))
     if metas:
         chk.sample(dict(run=metas[0][1], case=c02.jsonable(metas[0][2], metas[0][3])))
+    # the generated explicit-stack solver (route T), executed
+    gen_iter_harness(chk)
     chk.coverage['rule'] = ("each lattice movie through 5 strategies x link_iter, link, link_df_iter, link with permuted rows, legacy.link_iter (KDTree + hash table), "
                             "pre-divided coordinates for per-axis ranges, and 'drop' (new + legacy); every labelling replayed by the Coq monitor; non-trivial = >= 6 features")
     chk.coverage['runs_checked'] = len(metas) + len(dmetas)
     chk.assumptions += ["as C02", "sklearn absent: neighbor_strategy='BTree' of the new linker not exercised; legacy 'BTree' is the pure-Python hash table",
-                        "legacy.link_df / link_df_iter return NaN labels under pandas 3 (outside the property's observation points): legacy is driven through legacy.link_iter"]
+                        "legacy.link_df / link_df_iter return NaN labels under pandas 3 (outside the property's observation points): legacy is driven through legacy.link_iter",
+                        "Gen/iterative.v is produced by tools/py2coq_iterative.py (trusted translator, fail-closed; subset and conventions in its docstring, vocabulary in "
+                        "Model/PyIterative.v): every Python int is a Z, l[i] wraps negative indices, dist**2 is an exact integer cost (float rounding of the partial sums not "
+                        "modelled), deques are lists, the while loop runs on explicit fuel; the translation is exercised by exact comparison of the generated def with the "
+                        "real nonrecursive_link (perfect-square costs, returned source order and tie-breaking included)"]
 
 
 def replay(chk, path):
@@ -178,14 +312,27 @@ def replay(chk, path):
 
 def _replay(chk, path):
     common.quiet_trackpy()
-    chk.coq()
+    build(chk)
     r = json.load(open(path))['replay']
+    if r.get('kind') == 'geniter':
+        g = r['graph']
+        g['srcs'] = [[tuple(x) for x in cs] for cs in g['srcs']]
+        impl = run_nrl(g)
+        res = common.coq_eval_lists(chk.work, GENI_IMPORTS, GENI_FUNC, [gen_iter_term(g, impl)], tag='geniter')
+        chk.count(('replay', g), True)
+        print('replay: generated nonrecursive_link; real choice', impl, 'code', res[0], GENI_CODES.get(res[0]))
+        if res[0] != 0:
+            chk.violation('generated nonrecursive_link: %s' % GENI_CODES.get(res[0], res[0]), GENI_CODES.get(res[0], res[0]),
+                          dict(kind='geniter', code=res[0], graph=g, impl_choice=impl))
+        return
     cj = r['case']
     sr = tuple(Fraction(x) for x in cj['search_range']) if isinstance(cj['search_range'], list) else Fraction(cj['search_range'])
     frames = [np.array(f, dtype=float).reshape(len(f), -1) for f in cj['frames']]
     ndim = max([f.shape[1] for f in frames if f.size] or [2])
     frames = [f.reshape(len(f), ndim) for f in frames]
     c = dict(frames=frames, sr=sr, memory=cj['memory'], max_size=linkgen.LIMIT, strategy='recursive', ndim=ndim)
+    linkgen.SPELL = cj.get('search_range_spelling')
+    c['sr_spell'] = linkgen.SPELL
     name = r.get('run', 'link_iter/recursive')
     parts = name.split('/')
     if parts[0] == 'legacy':
